@@ -105,13 +105,18 @@ Theorem C13_part_order : forall ps ps', Permutation ps ps' -> NoDup (map part_ke
 Proof. exact kw_of_parts_perm. Qed.
 Print Assumptions C13_part_order.
 
-(* letter case: the text is upper-cased first *)
-Theorem C13_case_invariance : forall ev o s s', upper s = upper s' -> tzid_findall s = tzid_findall s' ->
-  forallb is_ascii s = forallb is_ascii s' -> parse_rfc ev o s = parse_rfc ev o s'.
+(* letter case: everything except the TZID names is upper-cased; texts that agree after upper-casing
+   and carry the same TZID names are read identically *)
+Theorem C13_case_invariance : forall ev o s s', upper s = upper s' ->
+  tzid_findall (join [10] (get_lines (o_unfold o || o_compatible o) s)) =
+  tzid_findall (join [10] (get_lines (o_unfold o || o_compatible o) s')) ->
+  parse_rfc ev o s = parse_rfc ev o s'.
 Proof. exact case_invariance. Qed.
 Print Assumptions C13_case_invariance.
 
-Theorem C13_spelling_case : forall ev o mask s, tzid_findall s = [] -> tzid_findall (case_text mask mask s) = [] ->
+Theorem C13_spelling_case : forall ev o mask s,
+  tzid_findall (join [10] (get_lines (o_unfold o || o_compatible o) (case_text mask mask s))) =
+  tzid_findall (join [10] (get_lines (o_unfold o || o_compatible o) s)) ->
   parse_rfc ev o (case_text mask mask s) = parse_rfc ev o s.
 Proof. exact spelling_case. Qed.
 Print Assumptions C13_spelling_case.
@@ -140,12 +145,14 @@ Print Assumptions C13_spelling_folded.
 
 (* spelling_invariance, all choices at once for an inline DTSTART (without TZID parameter): order of
    parts, BYDAY/BYWEEKDAY and the four member forms, '+' signs, DATE / DATE-TIME / Z, VALUE=,
-   'RRULE:' prefix, fold positions, letter case: rrulestr returns what the keyword constructor returns *)
+   'RRULE:' prefix, fold positions, letter case: rrulestr returns what the keyword constructor returns.
+   (Side condition: lower-casing does not change the collected TZID names, e.g. there is none.) *)
 Theorem C13_spelling_invariance : forall ev o c d k, wf_kw k = true ->
   valid_dt d = true -> dus d = 0 -> (dtz d = 0 \/ dtz d = 1) -> c_inline c <> 0 ->
   o_forceset o = false -> o_compatible o = false -> o_ignoretz o = false -> o_unfold o = true ->
   let folded := join [10] (map (fold_line (c_folds c) 0) (spell_lines c [] (Some d) k)) in
-  tzid_findall folded = [] -> tzid_findall (case_text (c_case c) (c_case c) folded) = [] ->
+  tzid_findall (join [10] (get_lines true (case_text (c_case c) (c_case c) folded))) =
+  tzid_findall (join [10] (get_lines true folded)) ->
   parse_rfc ev o (spell c [] (Some d) k) = single ev (o_cache o) (Some d) k.
 Proof. exact spelling_invariance. Qed.
 Print Assumptions C13_spelling_invariance.
@@ -162,17 +169,29 @@ Theorem C13_spelling_tzid : forall ev o c d k name tag, wf_kw k = true ->
 Proof. exact rrulestr_tzid. Qed.
 Print Assumptions C13_spelling_tzid.
 
-Theorem C13_tzid_names : forall pre name rest, noTZ (pre ++ [84]) = true -> name <> [] ->
-  has_char 58 name = false -> noTZ rest = true ->
+(* the same folded at any positions, also inside the TZID parameter (unfold=True; formerly F-C13-d) *)
+Theorem C13_spelling_tzid_folded : forall ev o c d k name tag ps, wf_kw k = true ->
+  valid_dt d = true -> dus d = 0 -> dtz d = 0 ->
+  name <> [] -> forallb namec name = true -> tz_get (o_tzids o) name = tag -> tag <> 0 ->
+  o_forceset o = false -> o_compatible o = false -> o_ignoretz o = false -> o_unfold o = true ->
+  parse_rfc ev o (join [10] (map (fold_line ps 0)
+     [s_DTSTART ++ s_TZIDparm ++ name ++ 58 :: dt_spell (c_dshort c) d;
+      (if c_prefix c then s_RRULEc else []) ++ spell_value c k]))
+  = single ev (o_cache o) (Some (with_tz d tag)) k.
+Proof. exact rrulestr_tzid_folded. Qed.
+Print Assumptions C13_spelling_tzid_folded.
+
+Theorem C13_tzid_names : forall pre name rest, nolower pre -> noTZ (pre ++ [84]) = true -> name <> [] ->
+  has_char 58 name = false -> nolower rest -> noTZ rest = true ->
   tzid_findall (pre ++ s_TZIDeq ++ name ++ 58 :: rest) = [name].
 Proof. exact tzid_findall_one. Qed.
 Print Assumptions C13_tzid_names.
 
-(* TZID parameter (partial): given that the name was collected from the text, the zone found
-   through tzids is applied to a naive value, and a value with Z is rejected with ValueError.
-   (The whole-text statement for the unfolded, case-preserved spelling is C13_spelling_tzid; still
-   open: TZID together with folding / lower-casing / a VALUE parameter, and TZID on EXDATE lines.) *)
-Theorem C13_tzid_param_partial : forall o names name tag short d,
+(* TZID parameter, at the level of _parse_date_value: the zone found through tzids is applied to a
+   naive value, and a value with Z is rejected with ValueError.  (Not covered by a theorem: a TZID
+   parameter together with a lower-cased keyword or a VALUE parameter, and TZID on EXDATE lines --
+   differential only.) *)
+Theorem C13_tzid_param : forall o names name tag short d,
   has_char 61 (upper name) = false ->
   tzid_lookup names (upper name) = Some name -> tz_get (o_tzids o) name = tag -> tag <> 0 ->
   o_ignoretz o = false ->
@@ -180,7 +199,7 @@ Theorem C13_tzid_param_partial : forall o names name tag short d,
   parse_date_value o names (dt_spell short d) [s_TZIDeq ++ upper name] =
   Ok [mkdt (dy d) (dmo d) (dd d) (dh d) (dmi d) (ds d) (dus d) tag].
 Proof. exact tzid_param_partial. Qed.
-Print Assumptions C13_tzid_param_partial.
+Print Assumptions C13_tzid_param.
 
 Theorem C13_tzid_param_twice_valueerror : forall o names name tag short d,
   has_char 61 (upper name) = false ->
@@ -256,24 +275,17 @@ Theorem C13_parts_accepted_are_known : forall ig ps kw kw', handle_pairs ig ps k
 Proof. exact handle_pairs_ok_known. Qed.
 Print Assumptions C13_parts_accepted_are_known.
 
-(* a rule line fails with ValueError (or leaves the modelled date forms), except that a line
-   whose parts are all fine but lack FREQ fails with TypeError: finding F-C13-a *)
-Theorem C13_rule_error_classes : forall ev ig line st e, parse_rule ev ig line st = Err e ->
-  ev_or_unmodelled e \/ (e = EType /\ exists kw, parse_rrule_kw ig line = Ok kw /\ k_freq kw = None).
+(* malformed text: whatever rrulestr is given (ASCII, date values of the compact forms), an error is
+   a ValueError -- never TypeError / IndexError / KeyError / AttributeError.  (EUnmodelled = the text
+   leaves the modelled fragment; the implementation is then checked directly.)  Unguarded since the
+   fixes ec791d5 (missing FREQ) and a8bd79d (no RRULE line). *)
+Theorem C13_rrulestr_error_classes : forall ev o s e, parse_rfc ev o s = RErr e -> ev_or_unmodelled e.
+Proof. exact rrulestr_error_classes. Qed.
+Print Assumptions C13_rrulestr_error_classes.
+
+Theorem C13_rule_error_classes : forall ev ig line st e, parse_rule ev ig line st = Err e -> ev_or_unmodelled e.
 Proof. exact parse_rule_err. Qed.
 Print Assumptions C13_rule_error_classes.
-
-Theorem C13_malformed_valueerror_refuted_missing_freq :
-  parse_rfc (mkenv 0 (mkdt 2000 1 1 0 0 0 0 0)) (mkopts None false false false false false [])
-            (zs "RRULE:COUNT=3") = RErr EType.
-Proof. exact malformed_valueerror_refuted_missing_freq. Qed.
-Print Assumptions C13_malformed_valueerror_refuted_missing_freq.
-
-Theorem C13_malformed_valueerror_refuted_no_rrule :
-  parse_rfc (mkenv 0 (mkdt 2000 1 1 0 0 0 0 0)) (mkopts None false false false false false [])
-            (zs "DTSTART:20000101") = RErr EIndex.
-Proof. exact malformed_valueerror_refuted_no_rrule. Qed.
-Print Assumptions C13_malformed_valueerror_refuted_no_rrule.
 
 Theorem C13_empty_valueerror : forall ev o, parse_rfc ev o [] = RErr EValue.
 Proof. exact empty_valueerror. Qed.
